@@ -618,7 +618,11 @@ impl Solve<SimUser, Eng> for PrimGoal {
         match (self.f, self.inp.as_ref()) {
             (PFn::Square, LTermInner::Val(LValue::Number(n))) => unify_out(state, LTerm::from(n * n)),
             (PFn::Succ, LTermInner::Val(LValue::Number(n))) => unify_out(state, LTerm::from(n + 1)),
-            (PFn::Square, _) | (PFn::Succ, _) => Stream::empty(),
+            (PFn::HeadSquare, LTermInner::Cons(h, _)) => match h.as_ref() {
+                LTermInner::Val(LValue::Number(n)) => unify_out(state, LTerm::from(n * n)),
+                _ => Stream::empty(),
+            },
+            (PFn::Square, _) | (PFn::Succ, _) | (PFn::HeadSquare, _) => Stream::empty(),
             (PFn::IsNumber, LTermInner::Val(LValue::Number(_))) => Stream::unit(Box::new(state)),
             (PFn::IsNumber, _) => Stream::empty(),
             (PFn::IsVar, LTermInner::Var(_, _)) => Stream::unit(Box::new(state)),
